@@ -1933,6 +1933,9 @@ func RunFrame(frame *py.Frame) (res py.Object, err error) {
 	if vm.retval != nil && vm.curexc.IsSet() {
 		panic("vm: result and exception")
 	}
+	// The frame has finished (return or exception, possibly after a
+	// yield inside a finally block): a generator owning it is exhausted
+	frame.Yielded = false
 
 fast_yield:
 	vm.verifExit()
